@@ -127,3 +127,7 @@ pub fn observe_str(x: &str) {
 pub fn set_env(key: &str, v: usize) {
     std::env::set_var(key, v.to_string());
 }
+/// iteration order explored for hash tables from here on: 0 = one order, 1 = forward and reverse,
+/// 2 = all permutations (natively a no-op: std randomises per table)
+#[inline(never)]
+pub fn hash_order(_mode: usize) {}
